@@ -138,6 +138,11 @@ static int on_wkey(TickitWindow *w, TickitEventFlags fl, void *info, void *data)
   h->depth--;
   return h->ret;
 }
+static int on_wdestroy_calls(TickitWindow *w, TickitEventFlags fl, void *info, void *data)
+{
+  if(!(fl & TICKIT_EV_DESTROY)) return 0;
+  return on_wkey(w, fl, info, data);
+}
 static int on_wmouse(TickitWindow *w, TickitEventFlags fl, void *_info, void *data)
 {
   struct hdata *h = data;
@@ -216,7 +221,7 @@ static void w_op(const char *op, int depth)
         case 'r': w_emit_mouse(TICKIT_MOUSEEV_RELEASE); break;
         case 'w': w_emit_mouse(TICKIT_MOUSEEV_WHEEL); break;
       } break;
-    case 'b': {   /* b<i>.<k|m|e|f|g>.<maskhex>.<ret>.<actions> */
+    case 'b': {   /* b<i>.<k|m|e|f|g|d>.<maskhex>.<ret>.<actions> */
       int i = p_int(&s);
       struct hdata *h = malloc(sizeof *h);
       h->kind = *s++; if(*s == '.') s++;
@@ -232,6 +237,8 @@ static void w_op(const char *op, int depth)
         case 'e': h->cid = tickit_window_bind_event(W[i], TICKIT_WINDOW_ON_EXPOSE, 0, &on_wkey, h); break;
         case 'f': h->cid = tickit_window_bind_event(W[i], TICKIT_WINDOW_ON_FOCUS, 0, &on_wkey, h); break;
         case 'g': h->cid = tickit_window_bind_event(W[i], TICKIT_WINDOW_ON_GEOMCHANGE, 0, &on_wkey, h); break;
+        /* DESTROY handlers that make calls are not modelled: such cases are judged by the discipline on the trace only */
+        case 'd': h->cid = tickit_window_bind_event(W[i], TICKIT_WINDOW_ON_DESTROY, 0, &on_wdestroy_calls, h); break;
         default: printf("ERR handler-kind %s\n", op); fflush(stdout); _exit(0);
       }
       break; }
